@@ -23,6 +23,7 @@ THEOREMS = [
     "GitAi.Tracker.identity_keeps_lines_partial",
     "GitAi.Tracker.witness_identity_zero_length",
     "GitAi.Tracker.witness_identity_ts_tie",
+    "GitAi.Tracker.witness_identity_overrode_order",
 ]
 
 
